@@ -38,7 +38,7 @@ func gen(t *rapid.T) sw.Scenario {
 			tg := rapid.SampledFrom([]string{"header", "data"}).Draw(t, "target")
 			ln := rapid.IntRange(1, 8).Draw(t, "outage")
 			o := sw.Op{Kind: "script", Target: tg}
-			kind := rapid.SampledFrom([]string{"timeout", "error", "mempool", "toobig"}).Draw(t, "outkind")
+			kind := rapid.SampledFrom([]string{"timeout", "error", "mempool", "toobig", "canceled", "da-canceled"}).Draw(t, "outkind")
 			for j := 0; j < ln; j++ {
 				o.Script = append(o.Script, world.SubmitResp{Kind: kind})
 			}
